@@ -87,6 +87,25 @@ def basic_checks(chk, rng, c, found, history_pool):
             out3 = A.make_aggregator(name, p, dt)(t)
             if not torch.equal(out, out3):
                 viol(chk, found, c, dt, f"{name}: equal seeds gave different results", {})
+        vec = p.get("leak") if name == "GradDrop" else p.get("pref") if name in ("UPGrad", "DualProj") else None
+        if vec is not None and len(vec) == m:
+            # a leak / preference vector of the OTHER float dtype than the matrix is accepted by these
+            # aggregators: the result is still in the dtype of the INPUT, with the same value
+            other = "f32" if dt == "f64" else "f64"
+            try:
+                torch.manual_seed(3)
+                out4 = A.make_aggregator(name, p, dt, other)(t)
+            except Exception as e:  # noqa: BLE001
+                out4 = type(e).__name__
+            chk.note("cross_dtype_parameter_vector")
+            if isinstance(out4, str):
+                viol(chk, found, c, dt, f"{name} with a {A.DT[other]} parameter vector raised {out4}", {})
+            elif out4.dtype != A.DT[dt] or tuple(out4.shape) != (n,):
+                viol(chk, found, c, dt, f"{name} with a {A.DT[other]} parameter vector returned dtype {out4.dtype}, "
+                     f"shape {tuple(out4.shape)} for a {A.DT[dt]} input with {n} columns", {})
+            elif not bool(((out4 - out).abs() <= 1e-3 * max(1e-300, float(out.abs().max()), float(t.abs().max()))).all()):
+                viol(chk, found, c, dt, f"{name}: a {A.DT[other]} parameter vector changes the result",
+                     {"same_dtype": out.tolist(), "other_dtype": out4.tolist()})
 
 
 def homogeneity(chk, rng, c, found):
